@@ -302,10 +302,16 @@ func TestVerifC07Service(t *testing.T) {
 				}
 			}
 		}
-		if !abort && len(mps) >= 2 && rootOpaque {
-			out.Count("overlay-skipped-opaque-layer-root")
+		// Stacks in which an upper layer's ROOT is opaque are compared too, under their own signature:
+		// the snapshotter serves the marker, but the kernel never consults the opaque xattr of a lowerdir
+		// root, so lower content stays visible -- a recorded known finding (findings/known_findings.txt),
+		// shared with every xattr-based overlay snapshotter.
+		diffSig := "overlay-merged-view-differs"
+		if rootOpaque {
+			out.Count("overlay-opaque-layer-root-stack")
+			diffSig = "overlay-opaque-marker-on-layer-root-ignored-by-kernel"
 		}
-		if !abort && len(mps) >= 2 && !rootOpaque {
+		if !abort && len(mps) >= 2 {
 			merged := filepath.Join(tmp, fmt.Sprintf("s%d", si), "merged")
 			os.MkdirAll(merged, 0755)
 			var lowers []string
@@ -338,23 +344,23 @@ func TestVerifC07Service(t *testing.T) {
 						w += fmt.Sprintf(" L%d=[%s]", i+1, l.Spec)
 					}
 					if err != nil {
-						out.Fail("overlay-merged-view-differs", w+": "+err.Error())
+						out.Fail(diffSig, w+": "+err.Error())
 						return
 					}
 					for p, x := range seen {
 						m, exp := s.Merged[p]
 						if !exp {
-							out.Fail("overlay-merged-view-differs", w+fmt.Sprintf(": %q (type %o) is in the overlay mount but not in the applied tars", p, x.typ))
+							out.Fail(diffSig, w+fmt.Sprintf(": %q (type %o) is in the overlay mount but not in the applied tars", p, x.typ))
 							return
 						}
 						if x.typ != m.Type || x.data != m.Data || x.target != m.Target {
-							out.Fail("overlay-merged-view-differs", w+fmt.Sprintf(": %q is type %o data %q target %q in the overlay mount; applied tars: type %o data %q target %q", p, x.typ, x.data, x.target, m.Type, m.Data, m.Target))
+							out.Fail(diffSig, w+fmt.Sprintf(": %q is type %o data %q target %q in the overlay mount; applied tars: type %o data %q target %q", p, x.typ, x.data, x.target, m.Type, m.Data, m.Target))
 							return
 						}
 					}
 					for p := range s.Merged {
 						if _, ok := seen[p]; !ok {
-							out.Fail("overlay-merged-view-differs", w+fmt.Sprintf(": %q is in the applied tars but not in the overlay mount", p))
+							out.Fail(diffSig, w+fmt.Sprintf(": %q is in the applied tars but not in the overlay mount", p))
 							return
 						}
 					}
